@@ -319,7 +319,7 @@ def run_main(args, hashseed="0"):
 
 def sample_files(r, nfiles=3, nlines=14):
     pool4 = [r.getrandbits(32) for _ in range(10)] + [0x0A000001, 0x0A000101, 0xC0A80001, 0x08080808, 0x01010101]
-    pool6 = [r.getrandbits(128) for _ in range(5)] + [1, (0x20010DB8 << 96) | 1, (0xFE80 << 112) | 5]
+    pool6 = [r.getrandbits(128) for _ in range(5)] + [1, 5, (0x20010DB8 << 96) | 1, (0xFE80 << 112) | 5]
     tmpl = ["interface Loopback%d", " ip address {a4} 255.255.255.0", " ipv6 address {a6}/64", "router bgp 65001", " neighbor {a4} remote-as 65002",
             "ip route {a4} 255.255.255.255 {b4}", "ntp server {a6}", "! comment {a4} and {a6}", "access-list 10 permit {a4} 0.0.0.255", "logging host {b4}", ""]
     files = {}
@@ -378,9 +378,12 @@ def file_level(ck, pid, tier):
         base = tlc.subdir("files_%s_%d" % (pid, si))
         ind = os.path.join(base, "in")
         write_tree(ind, files)
-        ev = [cfg.event()] + api_events(cfg)
+        ev = [cfg.event(TEXT_CLAUSES)] + ([] if pid == "C17" else api_events(cfg))
         texts = [None] * len(ev)
         hb = ["--preserve-host-bits", str(cfg.ps4)]
+        mapfile = os.path.join(base, "ip.map")
+        if pid == "C17":
+            hb += ["-d", mapfile]
         # run 1: whole directory, one process
         out1 = os.path.join(base, "out1")
         rc, err = run_main(["-a", "-s", salt, "-i", ind, "-o", out1] + hb, hashseed=si)
@@ -390,6 +393,32 @@ def file_level(ck, pid, tier):
             texts.append(("main", "EXC"))
         for name in sorted(got):
             pair_lines(ev, texts, name, files[name], got[name])
+        if pid == "C17":
+            # the dumped map must list exactly the replacements used in the output files
+            pairs = {4: [], 6: []}
+            bad = {4: [], 6: []}
+            try:
+                for line in open(mapfile, encoding="utf-8").read().splitlines():
+                    parts = line.split("\t")
+                    fam = None
+                    try:
+                        a, b = D.ipaddress.IPv4Address(parts[0]), D.ipaddress.IPv4Address(parts[1])
+                        fam = 4
+                    except (ValueError, IndexError):
+                        try:
+                            a, b = D.ipaddress.IPv6Address(parts[0]), D.ipaddress.IPv6Address(parts[1])
+                            fam = 6
+                        except (ValueError, IndexError):
+                            bad[6 if ":" in line else 4].append(line[:80])
+                    if fam:
+                        W = 32 if fam == 4 else 128
+                        pairs[fam].append([D.bits_of(int(a), W), D.bits_of(int(b), W)])
+                for fam in (4, 6):
+                    ev.append({"ev": "dump", "fam": fam, "pairs": pairs[fam], "bad": bad[fam]})
+                    texts.append(("dump family %d" % fam, "%d pairs, malformed lines %r" % (len(pairs[fam]), bad[fam])))
+            except OSError as e:
+                ev.append({"ev": "exc", "what": "map file: %r" % (e,)})
+                texts.append(("dump", "EXC"))
         if pid == "C03":
             # run 2..: every file on its own, each in a fresh process, reversed order
             for name in sorted(files, reverse=True):
